@@ -108,7 +108,7 @@ def job_wrapper(ctx, jr, nargs, vcap):
 
 
 # ---------------------------------------------------------------------- native replay: a user alias-style command via the real SDK
-def replayer(v):
+def wrapper_replayer(v):
     """the wrapper is reachable natively through any script-implemented std command: concat (success path) or array_join on a
     non-array (error path); caller variable names are mapped onto that command's scope prefix"""
     res_kind = v.get('body_result', 5)
@@ -157,9 +157,12 @@ def body_replayer(v):
     return (False, 'native run leaves the caller variables and the handle table as they were')
 
 
+def replayer(v): return body_replayer(v) if v.get('kind') == 'c19_body' else wrapper_replayer(v)
+
+
 def main(tier, seed):
     chk = H.Check(PID, tier, seed)
-    chk.replayer = lambda v: body_replayer(v) if v.get('kind') == 'c19_body' else replayer(v)
+    chk.replayer = replayer
     for c_ in REAL:
         if c_ == 'concat' and tier == 'quick': continue          # ~6 min (string building through repeated template expansion): thorough tier only
         chk.job(job_real_body, 'body:' + c_, cmd=c_, vcap=1 if c_ == 'concat' else 2)
